@@ -397,7 +397,7 @@ class LinearGaussianBayesianNetwork(BayesianNetwork):
         mu_a = mu[missing_indexes]
         mu_b = np.delete(mu, missing_indexes)
 
-        cov_aa = cov[missing_indexes, missing_indexes]
+        cov_aa = cov[np.ix_(missing_indexes, missing_indexes)]
         cov_bb = np.delete(
             np.delete(cov, missing_indexes, axis=0), missing_indexes, axis=1
         )
